@@ -10,3 +10,4 @@ import Carapace.Props.C11
 import Carapace.Props.C12
 import Carapace.Props.C13
 import Carapace.Props.C17
+import Carapace.Props.C09
